@@ -130,6 +130,15 @@ CHECKS = {
         note="Pinned layout generated by ast from commit 236b7b1; new modules allowed. Side conditions on module "
              "attributes/keys/naming are finite concrete comparisons. Known findings: PurgeDelayTimer, WaterDetected.",
         ref="5/C18"),
+    "C15": dict(
+        text="Real GeckoAsyncLocator.discover with its hello consumer and broadcast loop on the real AsyncTasks manager, on a "
+             "virtual loop with a fake broadcast endpoint: number of replies, arrival slot of each, originating spa "
+             "(duplicates, both orders), symbolic name bytes (any latin-1 byte incl. '|'), identifier / address filters. "
+             "Each answering spa listed once with identifier, name and address intact, only the requested identifier, "
+             "upper and lower bounds on the return time for every case, endpoint closed once, no LOC task or broadcast "
+             "afterwards; the threaded locator's de-duplication step.",
+        note="Bounded: <=2/3 replies, 4 arrival slots, 2 spas, names <=2 bytes; discovery timeouts scaled to 6 polls.",
+        ref="5/C15"),
     "C16": dict(
         text="One inductive step of both real sequence-counter implementations from an arbitrary in-range pre-state "
              "(covers every call history), and the sequence byte of every real request factory of the async and the "
